@@ -193,11 +193,15 @@ func c11Check(e *c11Env, size int, header string) (ds []disc, outcome string, cl
 	e.ifRangeN++
 	if header != "" && len(ds) == 0 && e.ifRangeN%5 == 0 && (r.Status == 200 || r.Status == 206 || r.Status == 416) {
 		h := s3x.Do(e.st.Handler, &s3x.Req{Method: "HEAD", Path: "/bk0/" + key, Query: q})
-		for _, val := range []string{h.Header.Get("ETag"), h.Header.Get("Last-Modified")} {
+		// ... and with a condition that every stored object meets (not the ETag of other bytes;
+		// changed since a date before every write): it does not stand in the way of the range.
+		for _, tw := range [][2]string{{"If-Range", h.Header.Get("ETag")}, {"If-Range", h.Header.Get("Last-Modified")},
+			{"If-None-Match", `"00000000000000000000000000000000"`}, {"If-Modified-Since", "Mon, 01 Jan 1990 00:00:00 GMT"}} {
+			name, val := tw[0], tw[1]
 			if val == "" {
 				continue
 			}
-			r2 := s3x.Do(e.st.Handler, &s3x.Req{Method: "GET", Path: "/bk0/" + key, Query: q, Header: s3x.H("Range", header, "If-Range", val)})
+			r2 := s3x.Do(e.st.Handler, &s3x.Req{Method: "GET", Path: "/bk0/" + key, Query: q, Header: s3x.H("Range", header, name, val)})
 			cl2, _ := r2.ContentLength()
 			out1, out2 := outcome, fmt.Sprintf("%d|%s|%v|%s", r2.Status, md5hex(r2.Body), cl2, r2.Header.Get("Content-Range"))
 			if r.Status >= 400 || r2.Status >= 400 {
@@ -205,7 +209,7 @@ func c11Check(e *c11Env, size int, header string) (ds []disc, outcome string, cl
 				out1, out2 = fmt.Sprintf("%d %s", r.Status, r.ErrCode()), fmt.Sprintf("%d %s", r2.Status, r2.ErrCode())
 			}
 			if out2 != out1 {
-				fail("if-range", "with If-Range %q, a validator of the object itself, the answer is %s; without it %s (status|md5|length|Content-Range)", val, out2, out1)
+				fail("if-range", "with %s %q, a condition the object meets, the answer is %s; without it %s (status|md5|length|Content-Range)", name, val, out2, out1)
 				break
 			}
 		}
@@ -393,7 +397,7 @@ func TestC11(t *testing.T) {
 		ID:    "C11",
 		Level: "exploration",
 		Rule: "cases = (backend, object size, Range header); exhaustive over sizes 0..N x bytes=F-L / F- / -S with F,L,S in -1..N+2 " +
-			"(N=8 quick, 24 thorough) plus int32/int64/overflow boundary values, whitespace, multi-range and unit variants, plus rapid-generated headers; " +
+			"(N=8 quick, 24 thorough) plus int32/int64/overflow boundary values, whitespace, multi-range and unit variants, plus rapid-generated headers; every fifth request is repeated with If-Range validators of the object itself and with If-None-Match / If-Modified-Since conditions that every object meets, and must be answered alike; " +
 			"non-trivial = the oracle classifies the header as a satisfiable range shorter than the object, a clipped range, or a 416; distinct by (backend,size,header)",
 		Replay: c11Replay,
 		Run:    c11Run,
